@@ -63,6 +63,23 @@ type Case struct {
 
 // dbValue draws an encodable database value: empty, 1..3 lists, entries of several sizes.
 func dbValue(t *rapid.T) []byte {
+	if gen.Chance(t, "hugedb", 1, 20) {
+		// a revocation list as they are in the field: one list with more than a thousand hashes
+		n := rapid.SampledFrom([]int{1023, 1024, 1025, 1366, 2049}).Draw(t, "hugen")
+		l := esl.List{Type: esl.SHA256, Size: 48}
+		seed := rapid.Uint64().Draw(t, "hugeseed") | 1
+		for i := 0; i < n; i++ {
+			d := make([]byte, 32)
+			for j := range d {
+				seed ^= seed << 13
+				seed ^= seed >> 7
+				seed ^= seed << 17
+				d[j] = byte(seed >> 24)
+			}
+			l.Entries = append(l.Entries, esl.Entry{Owner: gen.Owners[i%len(gen.Owners)], Data: d})
+		}
+		return esl.Encode([]esl.List{l})
+	}
 	switch rapid.IntRange(0, 5).Draw(t, "dbkind") {
 	case 0:
 		return nil
